@@ -25,6 +25,7 @@
 
 #include <stdio.h>
 #include <stdarg.h>
+#include <fcntl.h>
 
 #define LEAN_NAT(name, v) printf("def %s : Nat := %lu\n", name, (unsigned long)(v))
 
@@ -91,9 +92,22 @@ int main(void)
         static const char two[] = RC_MAGIC "3\nmore\n";
         th[0].labels = false;
         th[0].rc = 0;
-        cbuf_write(th[0].outbuf, (void *) two, sizeof(two) - 1, NULL);
-        ncalls = 0;
-        _flush_lines(th[0].outbuf, (out_f) recorder, true, &th[0]);
+        /* through the handler (the entry point the harness uses too; _flush_lines' own signature is not
+         * relied upon), its output -- out() on the real stdout -- sent to /dev/null */
+        int p[2], save, nul = open("/dev/null", O_WRONLY);
+        if (pipe(p) < 0 || nul < 0) return 1;
+        if (write(p[1], two, sizeof(two) - 1) != (ssize_t) sizeof(two) - 1) return 1;
+        close(p[1]);
+        th[0].rcmd->fd = p[0];
+        fflush(stdout);
+        save = dup(1);
+        dup2(nul, 1);
+        while (_handle_rcmd_stdout(&th[0]) > 0)
+            ;
+        fflush(stdout);
+        dup2(save, 1);
+        close(save);
+        close(nul);
         LEAN_NAT("RELAY_RC_EVERY_LINE", th[0].rc == 3 ? 0 : 1);
     }
 
